@@ -21,7 +21,7 @@ def corpus_specs():
 
 
 def known_match(f, sc):
-    return None
+    return hc.known_failed_commit_dedup(f, sc)
 
 
 def run(rep, tier, seed, proof_broken=False):
